@@ -12,6 +12,7 @@ import (
 	"flag"
 	"fmt"
 	"os"
+	"reflect"
 	"runtime/debug"
 	"time"
 
@@ -31,6 +32,21 @@ type Holder2 struct {
 	Pad uint32
 	M   map[uint64]uint64
 	P   *Payload
+}
+
+// pointers that reflection-based field walks can miss: the same field name promoted from two embedded structs (not
+// visible as a promoted field), a promoted field shadowed by an outer one, a pointer inside an embedded pointer-free
+// looking array of structs
+type imgB struct{ Pix *Payload }
+type maskB struct{ Pix *Payload }
+type HolderAmb struct {
+	imgB
+	maskB
+}
+type baseB struct{ Data *Payload }
+type HolderShadow struct {
+	baseB
+	Data int64
 }
 type Tag struct{ X uint64 }
 type Label struct{}
@@ -60,12 +76,23 @@ func okPayload(p *Payload, c uint64) bool {
 func main() {
 	seed := flag.Uint64("seed", 1, "")
 	seconds := flag.Int("seconds", 6, "")
+	wide := flag.Bool("wide", false, "all entities carry 66 filler components: pointer columns beyond the 64th")
 	flag.Parse()
 	debug.SetGCPercent(1)
 	r := &rng{s: *seed}
 	w := ecs.NewWorld(ecs.NewConfig().WithCapacityIncrement(1 + r.n(4)))
 	labelID := ecs.ComponentID[Label](&w) // zero-sized component with the lowest ID
+	// wide tables (-wide): all entities carry 66 small filler components with lower IDs, so that the
+	// pointer-carrying columns sit beyond the 64th column of their tables
+	var fillers []ecs.ID
+	if *wide {
+		for i := 0; i < 66; i++ {
+			fillers = append(fillers, ecs.TypeID(&w, reflect.ArrayOf(i+1, reflect.TypeOf(uint8(0)))))
+		}
+	}
 	hid := ecs.ComponentID[Holder](&w)
+	ambID := ecs.ComponentID[HolderAmb](&w)
+	shID := ecs.ComponentID[HolderShadow](&w)
 	tid := ecs.ComponentID[Tag](&w)
 	h2id := ecs.ComponentID[Holder2](&w)
 	cid := ecs.ComponentID[ChildOf](&w)
@@ -85,6 +112,7 @@ func main() {
 	type rec struct {
 		e          ecs.Entity
 		h, h2, rel uint64 // expected canaries (0 = component absent)
+		amb, sh    uint64
 	}
 	var ents []*rec
 	var parents []ecs.Entity
@@ -108,8 +136,34 @@ func main() {
 		(*ChildOf)(w.Get(x.e, cid)).P = payload(c)
 		x.rel = c
 	}
+	setAmb := func(x *rec) {
+		c := fresh()
+		a := (*HolderAmb)(w.Get(x.e, ambID))
+		a.imgB.Pix, a.maskB.Pix = payload(c), payload(c+1000000007)
+		x.amb = c
+	}
+	setSh := func(x *rec) {
+		c := fresh()
+		a := (*HolderShadow)(w.Get(x.e, shID))
+		a.baseB.Data, a.Data = payload(c), int64(c)
+		x.sh = c
+	}
 	check := func(round int) {
 		for i, x := range ents {
+			if x.amb != 0 {
+				a := (*HolderAmb)(w.Get(x.e, ambID))
+				if !okPayload(a.imgB.Pix, x.amb) || !okPayload(a.maskB.Pix, x.amb+1000000007) {
+					fmt.Printf("CORRUPTION round %d entity #%d %v: HolderAmb does not hold canary %d\n", round, i, x.e, x.amb)
+					os.Exit(1)
+				}
+			}
+			if x.sh != 0 {
+				a := (*HolderShadow)(w.Get(x.e, shID))
+				if !okPayload(a.baseB.Data, x.sh) || a.Data != int64(x.sh) {
+					fmt.Printf("CORRUPTION round %d entity #%d %v: HolderShadow does not hold canary %d\n", round, i, x.e, x.sh)
+					os.Exit(1)
+				}
+			}
 			if x.h != 0 {
 				h := (*Holder)(w.Get(x.e, hid))
 				if !okPayload(h.P, x.h) || len(h.S) != 3 || h.S[0] != x.h || h.S[2] != x.h*7 || h.Str != fmt.Sprint("s", x.h) {
@@ -148,7 +202,7 @@ func main() {
 				if len(ents) > 1500 {
 					continue
 				}
-				x := &rec{e: w.NewEntity(labelID, hid)}
+				x := &rec{e: w.NewEntity(append(append([]ecs.ID{}, fillers...), labelID, hid)...)}
 				setH(x)
 				ents = append(ents, x)
 			case op < 4: // move between tables
@@ -157,6 +211,25 @@ func main() {
 					w.Remove(x.e, tid)
 				} else {
 					w.Add(x.e, tid)
+				}
+			case op < 5 && r.n(3) == 0: // pointer components whose pointers hide behind embedded structs
+				x := ents[r.n(len(ents))]
+				if r.n(2) == 0 {
+					if x.amb == 0 {
+						w.Add(x.e, ambID)
+						setAmb(x)
+					} else {
+						w.Remove(x.e, ambID)
+						x.amb = 0
+					}
+				} else {
+					if x.sh == 0 {
+						w.Add(x.e, shID)
+						setSh(x)
+					} else {
+						w.Remove(x.e, shID)
+						x.sh = 0
+					}
 				}
 			case op < 5: // second pointer component
 				x := ents[r.n(len(ents))]
